@@ -76,6 +76,19 @@ def table_cases(ctx):
                         c3['res'] = {'k': 'matrix', 'm': cmat(first)}
                         cases.append(c2)
                         cases.append(c3)
+                        # the matrix handed out belongs to the caller: scaling it in place does not change what the table says afterwards
+                        try:
+                            first *= 2.0
+                            first += 1.0
+                        except Exception:  # noqa: BLE001   (a read-only array is a fine answer as well)
+                            pass
+                        c4 = dict(c)
+                        c4['id'] = c['id'] + '-after-the-caller-changed-its-copy'
+                        try:
+                            c4['res'] = {'k': 'matrix', 'm': cmat(pe.dirac.Grid_gamma(c['tag']))}
+                        except Exception as e:  # noqa: BLE001
+                            c4['res'] = {'k': 'exc', 't': type(e).__name__}
+                        cases.append(c4)
                 cases.append(c)
         ctx.exhaustive = True
         ctx.sample({'tuple': cases[1]['t'], 'result': cases[1]['res']})
